@@ -317,10 +317,15 @@ fn run_reader(ctx: &Ctx, st: &mut Stats) {
         .filter(|b| b.ndev <= 1)
         .map(|b| Block { front: true, file: b.file, opts: b.opts.clone(), ndev: b.ndev, core: Core::Full, t: b.t, start: 0, n: n_selections(Core::Full, b.t) })
         .collect();
-    // order: sync <= 1 deviation, front ends, sync 2 deviations (a time cap cuts the 2-deviation tail first)
+    // order: per configuration with <= 1 deviation its sync block followed by its front-end block (so that a time cap
+    // costs all three front ends evenly), then the sync 2-deviation blocks (cut first by a cap)
     let split = blocks.iter().position(|b| b.ndev >= 2).unwrap_or(blocks.len());
     let tail = blocks.split_off(split);
-    blocks.extend(fronts);
+    let head: Vec<Block> = std::mem::take(&mut blocks);
+    for (sb, fb) in head.into_iter().zip(fronts) {
+        blocks.push(sb);
+        blocks.push(fb);
+    }
     blocks.extend(tail);
     for b in blocks.iter_mut() {
         b.start = total;
@@ -539,6 +544,94 @@ fn run_grid(ctx: &Ctx, st: &mut Stats) {
             "files_per_type_and_encoding": per_combo, "excluded": excluded,
             "per_file": "every selection (2^n + none) x 3 sync configurations (policy Selectors; policy Mask + page index + batch 2; row filter on the column) x rotating presentation x offset/limit menu, plus the push decoder with page index x 2 (offset,limit) pairs",
             "offset_limit_menu": ol.iter().map(|(o, l)| format!("{o:?}/{l:?}")).collect::<Vec<_>>()}),
+    );
+}
+
+// ------------------------------------------------------------------------------------------------
+// ordered predicate lists that empty whole row groups
+
+/// every ordered list of length 0..=max_len over the menu {reject all rows of row group 0 / 1 / 2, reject all
+/// rows of the file, reject nothing}; the i-th predicate of a list reads leaf i % nleaves
+fn predicate_lists(fc: &FileCtx, max_len: usize) -> Vec<Vec<Pred>> {
+    let mut menu: Vec<PredKind> = fc.rg_rows.iter().map(|r| PredKind::RejectRows(r.start, r.end)).collect();
+    menu.push(PredKind::False);
+    menu.push(PredKind::True);
+    let mut lists: Vec<Vec<PredKind>> = vec![vec![]];
+    let mut frontier: Vec<Vec<PredKind>> = vec![vec![]];
+    for _ in 0..max_len {
+        let mut next = vec![];
+        for l in &frontier {
+            for k in &menu {
+                let mut x = l.clone();
+                x.push(*k);
+                next.push(x);
+            }
+        }
+        lists.extend(next.iter().cloned());
+        frontier = next;
+    }
+    lists.into_iter().map(|l| l.into_iter().enumerate().map(|(i, kind)| Pred { kind, leaves: vec![i % fc.f.nleaves] }).collect()).collect()
+}
+
+fn run_predicate_lists(ctx: &Ctx, st: &mut Stats) {
+    let n = ctx.pick(8, 10);
+    let sids: Vec<usize> = (0..6).collect();
+    let files: Vec<FileCtx> = build_files(n, &sids, &mut Stats::new()).into_iter().filter(|fc| fc.f.rg_sizes.len() >= 3).collect();
+    let max_len = ctx.pick(2, 3);
+    let ol = [(None, None), (Some(1), None), (None, Some(2)), (Some(2), Some(3))];
+    // (file, list) work items
+    let mut items: Vec<(usize, Vec<Pred>)> = vec![];
+    for (fi, fc) in files.iter().enumerate() {
+        for l in predicate_lists(fc, max_len) {
+            items.push((fi, l));
+        }
+    }
+    let pats: Vec<Option<Vec<bool>>> = std::iter::once(None).chain(small_patterns(n).into_iter().map(Some)).collect();
+    let total = items.len() as u64;
+    let res = par_for(ctx, "predicate-lists", total, 4, |idx, st| {
+        let (fi, preds) = &items[idx as usize];
+        let fc = &files[*fi];
+        for (si, bits) in pats.iter().enumerate() {
+            let pres: Vec<u8> = if bits.is_none() { vec![PRES_MIN] } else { vec![PRES_MIN, PRES_MASK_OFF] };
+            for &p in &pres {
+                for (oi, &(off, lim)) in ol.iter().enumerate() {
+                    let o = Opts { preds: preds.clone(), sel: bits.as_ref().map(|b| SelSpec { bits: b.clone(), pres: p }), offset: off, limit: lim, page_index: fc.f.layout.offset_index && (si + oi) % 2 == 1, ..Default::default() };
+                    let (exp_rows, _, _) = fc.reference(&o);
+                    let nontrivial = (!exp_rows.is_empty() && exp_rows.len() < fc.f.nrows) as u64;
+                    let cls = if exp_rows.is_empty() { "no-rows" } else if exp_rows.len() == fc.f.nrows { "all-rows" } else { "some-rows" };
+                    st.add("predicate-lists-reader", 1, nontrivial);
+                    match check_read(fc, &o, false) {
+                        Ok(_) => st.outcome(&format!("predlist/reader/{cls}")),
+                        Err((fp, msg)) => {
+                            st.outcome("violation");
+                            st.violate(idx, fp, format!("{} {}: {}", fc.f.name, opts_json(&o), msg), || case_json(fc, &o));
+                        }
+                    }
+                    for front in ["push", "async"] {
+                        st.add(if front == "push" { "predicate-lists-push" } else { "predicate-lists-async" }, 1, nontrivial);
+                        let variant = idx + si as u64 + oi as u64;
+                        match check_front(fc, &o, front, variant, &exp_rows) {
+                            Ok(()) => st.outcome(&format!("predlist/{front}/{cls}")),
+                            Err((fp, msg)) => {
+                                st.outcome("violation");
+                                st.violate(idx, fp, format!("{} {} [{front}]: {}", fc.f.name, opts_json(&o), msg), || front_case_json(fc, &o, front, variant));
+                            }
+                        }
+                    }
+                }
+            }
+        }
+        if idx == total / 2 {
+            let o = Opts { preds: preds.clone(), ..Default::default() };
+            st.sample("predicate-lists-push", || front_case_json(fc, &o, "push", idx));
+        }
+    });
+    st.merge(res);
+    st.extra.insert(
+        "predicate_lists".into(),
+        json!({"files": files.len(), "files_rule": "the 18 files with 3 row groups", "menu": ["reject all rows of row group 0", "reject all rows of row group 1", "reject all rows of row group 2", "reject all rows (always false)", "reject nothing (always true)"],
+            "lists": "every ordered list of length 0..=max_len (repetitions allowed); predicate i reads leaf i % nleaves", "max_len": max_len, "lists_per_file": items.len() / files.len().max(1),
+            "crossed_with": "12 pattern selections + none x 2 presentations x 4 (offset,limit) pairs x page index alternating (only on files that have an offset index, so the known column-index defect does not mask these points), on the sync reader, the push decoder and the async stream"}),
     );
 }
 
@@ -905,7 +998,7 @@ pub fn run(ctx: &Ctx) -> ! {
         std::process::exit(if matches!(r, Ok(Ok(()))) { 0 } else { 1 });
     }
     let mut st = Stats::new();
-    // developer aid: `--only=algebra|grid|reader` runs one sub-engine
+    // developer aid: `--only=algebra|grid|predlists|reader` runs one sub-engine
     let only = ctx.extra_args.iter().find_map(|a| a.strip_prefix("--only=").map(|s| s.to_string()));
     let want = |name: &str| only.as_deref().is_none_or(|o| o == name);
     if want("algebra") {
@@ -913,6 +1006,9 @@ pub fn run(ctx: &Ctx) -> ! {
     }
     if want("grid") {
         run_grid(ctx, &mut st);
+    }
+    if want("predlists") {
+        run_predicate_lists(ctx, &mut st);
     }
     if want("reader") {
         run_reader(ctx, &mut st);
